@@ -46,13 +46,60 @@ def run_case(case):
     from trie.iter import NodeIterator
     it = NodeIterator(w.trie)
     ks, vs = list(it.keys()), list(it.values())
+    case["_interleaved"] = interleaved_walks(case, w.trie)
     return ops, outs, ks, vs, w
+
+
+def interleaved_walks(case, trie_a):
+    """Two walks in progress at once, over two different tries with related contents (iterators are lazy generators; a caller
+    may advance several of them alternately): each must still yield exactly its own trie's pairs / nodes."""
+    import itertools
+    from trie import HexaryTrie
+    from trie.iter import NodeIterator
+    m = case["m"]
+    if len(m) < 2:
+        return None
+    m2 = {}
+    for i, (k, v) in enumerate(sorted(m.items())):
+        if i % 3 == 0:
+            m2[k] = v[::-1] + b"!"                       # same key, other value
+        elif i % 3 == 1 and k:
+            m2[k[:-1] + bytes([k[-1] ^ 0x05])] = v       # sibling key
+        else:
+            m2[k] = v
+    tb = HexaryTrie({})
+    for k, v in m2.items():
+        tb[k] = v
+    for what in ("items", "nodes"):
+        ga, gb = getattr(NodeIterator(trie_a), what)(), getattr(NodeIterator(tb), what)()
+        ra, rb = [], []
+        for a, b in itertools.zip_longest(ga, gb):
+            if a is not None:
+                ra.append(a)
+            if b is not None:
+                rb.append(b)
+        if what == "items":
+            if [(bytes(k), bytes(v)) for k, v in ra] != sorted(m.items()):
+                return "items() of a trie walked alternately with a walk of another trie is not that trie's sorted contents"
+            if [(bytes(k), bytes(v)) for k, v in rb] != sorted(m2.items()):
+                return "items() of the second of two alternately advanced walks is not its trie's sorted contents"
+        else:
+            for tr, res in ((trie_a, ra), (tb, rb)):
+                for prefix, node in res:
+                    try:
+                        if node != tr.traverse(prefix):
+                            return f"nodes() of alternately advanced walks yielded a node that is not traverse({tuple(prefix)}) of its trie"
+                    except Exception:
+                        return f"nodes() of alternately advanced walks yielded prefix {tuple(prefix)} that cannot be traversed to in its trie"
+    return None
 
 
 def oracle(case, ops, outs, ks, vs):
     m = case["m"]
     skeys = sorted(m)
     nw = len(case["writes"])
+    if case.get("_interleaved"):
+        return case["_interleaved"]
     for q, out in zip(case["queries"], outs[nw:]):
         exp = (skeys[0] if skeys else None) if q is None else next((k for k in skeys if k > q), None)
         if out != exp:
